@@ -2,6 +2,7 @@ import Proofs.C09Murmur
 import Proofs.C09Token
 import Proofs.C09Parse
 import Proofs.C09Routing
+import Proofs.C09Names
 /-!
 # C09 — partition tokens equal the ones Cassandra computes (property theorems)
 
@@ -186,7 +187,7 @@ end RoutingFromMetadata
 /-- **The partition key order used by the schema branch**: metadata.go builds `TableMetadata.PartitionKey` from the rows
     of the schema's columns table — whatever order they arrive in (the server sorts them by column name) — so that the
     key column with position `p` is the `p`-th component, given distinct positions. -/
-theorem C09_schema_partition_key (pk : List (String × Nat)) (hnd : (pk.map (·.2)).Nodup) :
+theorem C09_schema_partition_key {α : Type} (pk : List (α × Nat)) (hnd : (pk.map (·.2)).Nodup) :
     (Routing.schemaPartitionKey pk).length = Routing.pkCount pk ∧
     ∀ n p, (n, p) ∈ pk → (Routing.schemaPartitionKey pk)[p]? = some (some n) := by
   refine ⟨by simp [Routing.schemaPartitionKey, Routing.place_length], ?_⟩
@@ -209,6 +210,184 @@ example : Routing.getRoutingKey toyEnc ⟨[⟨"v", 8⟩, ⟨"id", 4⟩], [], "ks
     id int | 1 1 | i int64 99` ↦ crash). The routing theorems exclude it by requiring a value at every key marker. -/
 theorem C09_cex_short_values :
     Routing.getRoutingKey toyEnc ⟨[⟨"v", 8⟩, ⟨"id", 4⟩], [1], "ks", "t"⟩ none [[99]] = .crash := by decide
+
+
+/-! ## name / index resolution between partition-key columns and bind markers (session.go routingKeyInfo, both paths) -/
+
+section NameResolution
+open RoutingNames
+variable {α τ ν β : Type} [DecidableEq α]
+
+/-- **The resolution is exact.** For ALL lists of partition-key column names and bind-marker names (any alphabet:
+    `α` is any type with decidable equality, the driver uses the BYTES of the identifiers, so case variants, quoted
+    identifiers, names that are prefixes of each other are simply different names): `resolve` answers `is` iff `is` has
+    one index per key column, in partition-key order, the marker at `is[k]` is named exactly `pk[k]`, and no earlier
+    marker is (the same column bound twice: the first marker counts). -/
+theorem C09_resolve_exact (pk markers : List α) (is : List Nat) :
+    resolve pk markers = some is ↔ Spec.Resolves markers pk is := resolve_iff markers pk is
+
+/-- the specification, pointwise -/
+theorem C09_resolve_pointwise (pk markers : List α) (is : List Nat) (h : resolve pk markers = some is) :
+    is.length = pk.length ∧
+    ∀ (k : Nat) (n : α) (i : Nat), pk[k]? = some n → is[k]? = some i →
+      markers[i]? = some n ∧ ∀ j : Nat, j < i → markers[j]? ≠ some n :=
+  ⟨resolve_length markers pk is h, resolves_get markers pk is ((resolve_iff markers pk is).mp h)⟩
+
+/-- **THE marker.** When no two markers bind the same column (distinct marker names), any index list that names the
+    key columns exactly (byte-equal, in key order) IS what `resolve` answers: the marker of a key column is unique. -/
+theorem C09_resolve_the_marker (pk markers : List α) (is : List Nat) (hnd : markers.Nodup)
+    (hlen : is.length = pk.length)
+    (h : ∀ (k : Nat) (n : α) (i : Nat), pk[k]? = some n → is[k]? = some i → markers[i]? = some n) :
+    resolve pk markers = some is :=
+  (resolve_iff markers pk is).mpr (resolves_of_exact markers hnd pk is hlen h)
+
+/-- no resolution iff some key column is not bound by any marker (byte-equal name) -/
+theorem C09_resolve_unbound (pk markers : List α) :
+    resolve pk markers = none ↔ ∃ n ∈ pk, n ∉ markers := resolve_none_iff markers pk
+
+/-- the loops of the code (index and type found together) compute `resolve` on the names, with the types of the
+    resolved markers -/
+theorem C09_resolve_is_code (ms : List (Marker α τ)) (pk : List α) :
+    (byName ms pk).map (·.1) = resolve pk (ms.map (·.name)) ∧
+    ∀ is ts, byName ms pk = some (is, ts) → typesAt ms is = some ts := by
+  refine ⟨?_, fun is ts h => (byName_some ms pk is ts h).2⟩
+  cases hb : byName ms pk with
+  | none => simp [byName_none ms pk hb]
+  | some q => obtain ⟨is, ts⟩ := q; simp [(byName_some ms pk is ts hb).1]
+
+/-- the model of op rkm (names as `String`) is the same function -/
+theorem C09_resolve_agrees_rkm (cols : List (Routing.Col τ)) (names : List String) :
+    (Routing.byName cols names).map (·.1) = resolve names (cols.map (·.name)) := by
+  rw [byName_eq_routing, (C09_resolve_is_code _ names).1]
+  simp [Function.comp_def]
+
+/-- Go map lookup (`schemaDescriber.cache[keyspace]`, `keyspaceMetadata.Tables[table]`): the entry with the byte-equal
+    key, whatever other keys (case variants …) the map holds -/
+theorem C09_lookup_exact (k : α) (l : List (α × β)) (hnd : (l.map (·.1)).Nodup) :
+    (∀ v, lookup k l = some v ↔ (k, v) ∈ l) ∧ (lookup k l = none ↔ ∀ p ∈ l, p.1 ≠ k) :=
+  ⟨fun v => ⟨lookup_mem k l v, lookup_of_mem k l v hnd⟩, lookup_none k l⟩
+
+/-- **Routing key by exact names (schema path: protocol ≤ 3, or no pk indexes in the PREPARE answer).** Whatever
+    keyspaces the schema cache holds and whatever tables the keyspace has (distinct keys, as in a Go map), when the
+    statement's keyspace and table are there (byte-equal names), the table's partition key is `pk` (as compiled from
+    the schema rows, `C09_schema_partition_key`), `is` resolves `pk` against the marker names
+    (`Spec.Resolves`: exact names, first marker) and the values bound at those markers encode with the types of THOSE
+    markers to `cs`, then `GetRoutingKey` is the raw value / the CompositeType framing of `cs` in partition-key order, and its
+    Murmur3 token is the one Cassandra computes for that key. -/
+theorem C09_routing_exact_name (enc : τ → ν → Routing.Enc) (st : Stmt α τ) (cache : Cache α) (tables : Keyspace α)
+    (rows : Table α) (pk : List α) (is : List Nat) (vals : List ν) (cs : List Routing.Bytes)
+    (hpk : st.pkeys = []) (hne : st.markers ≠ []) (hkey : pk ≠ [])
+    (hc : (cache.map (·.1)).Nodup) (hks : (st.keyspace, tables) ∈ cache)
+    (ht : (tables.map (·.1)).Nodup) (htb : (st.table, rows) ∈ tables)
+    (hrows : (Routing.schemaPartitionKey rows).mapM id = some pk)
+    (hres : Spec.Resolves (st.markers.map (·.name)) pk is)
+    (hcomp : Spec.components enc st.markers vals is = some cs) :
+    getRoutingKey enc st cache vals = .res (.key (some (Token.routingKey cs))) ∧
+    Murmur.murmur3H1 (Token.routingKey cs) = Murmur.Spec.cassandraH1 (Token.routingKey cs) := by
+  refine ⟨?_, C09_murmur _⟩
+  have hr := (resolve_iff (st.markers.map (·.name)) pk is).mpr hres
+  obtain ⟨ts, hb, hts⟩ := byName_of_resolve st.markers pk is hr
+  have hm : st.markers.isEmpty = false := by
+    cases h : st.markers with
+    | nil => exact absurd h hne
+    | cons _ _ => rfl
+  have hisne : is ≠ [] := by
+    intro e; subst e
+    have := resolve_length _ pk [] hr
+    cases pk with
+    | nil => exact hkey rfl
+    | cons _ _ => simp at this
+  simp only [getRoutingKey, routingKeyInfo, hm, hpk, lookup_of_mem _ cache tables hc hks,
+    lookup_of_mem _ tables rows ht htb, hrows, hb, List.isEmpty_nil, Bool.not_true, Bool.false_eq_true, if_false]
+  rw [createRoutingKey_spec enc st.markers vals is ts cs "" "" hisne hts hcomp]
+
+/-- a partition-key column that no marker binds under exactly that name: no routing key and no error — in particular
+    a marker whose name differs only in case does NOT bind it -/
+theorem C09_routing_exact_name_unbound (enc : τ → ν → Routing.Enc) (st : Stmt α τ) (cache : Cache α)
+    (tables : Keyspace α) (rows : Table α) (pk : List α) (vals : List ν) (n : α)
+    (hpk : st.pkeys = []) (hne : st.markers ≠ [])
+    (hc : (cache.map (·.1)).Nodup) (hks : (st.keyspace, tables) ∈ cache)
+    (ht : (tables.map (·.1)).Nodup) (htb : (st.table, rows) ∈ tables)
+    (hrows : (Routing.schemaPartitionKey rows).mapM id = some pk)
+    (hn : n ∈ pk) (hmiss : ∀ m ∈ st.markers, m.name ≠ n) :
+    getRoutingKey enc st cache vals = .res .nokey := by
+  have hm : st.markers.isEmpty = false := by
+    cases h : st.markers with
+    | nil => exact absurd h hne
+    | cons _ _ => rfl
+  have hr : resolve pk (st.markers.map (·.name)) = none :=
+    (resolve_none_iff _ pk).mpr ⟨n, hn, by simpa using hmiss⟩
+  have hb : byName st.markers pk = none := by
+    cases h : byName st.markers pk with
+    | none => rfl
+    | some q => obtain ⟨is, ts⟩ := q; rw [(byName_some st.markers pk is ts h).1] at hr; simp at hr
+  simp only [getRoutingKey, routingKeyInfo, hm, hpk, lookup_of_mem _ cache tables hc hks,
+    lookup_of_mem _ tables rows ht htb, hrows, hb, List.isEmpty_nil, Bool.not_true, Bool.false_eq_true, if_false]
+
+/-- the statement's table is not in the keyspace metadata under exactly that name (other spellings may be): ErrNoMetadata -/
+theorem C09_routing_table_missing (enc : τ → ν → Routing.Enc) (st : Stmt α τ) (cache : Cache α)
+    (tables : Keyspace α) (vals : List ν)
+    (hpk : st.pkeys = []) (hne : st.markers ≠ [])
+    (hc : (cache.map (·.1)).Nodup) (hks : (st.keyspace, tables) ∈ cache)
+    (hmiss : ∀ p ∈ tables, p.1 ≠ st.table) :
+    getRoutingKey enc st cache vals = .res .errMeta := by
+  have hm : st.markers.isEmpty = false := by
+    cases h : st.markers with
+    | nil => exact absurd h hne
+    | cons _ _ => rfl
+  simp only [getRoutingKey, routingKeyInfo, hm, hpk, lookup_of_mem _ cache tables hc hks,
+    (lookup_none st.table tables).mpr hmiss, List.isEmpty_nil, Bool.not_true, Bool.false_eq_true, if_false]
+
+/-- **Protocol ≥ 4: the partition-key bind indexes of the PREPARE answer decide**, whatever the marker names and the
+    schema cache are: the key is built from the values at exactly those markers (each encoded with the type of ITS
+    marker), in the order of the indexes. -/
+theorem C09_routing_pk_indexes (enc : τ → ν → Routing.Enc) (st : Stmt α τ) (cache : Cache α) (vals : List ν)
+    (cs : List Routing.Bytes) (hpk : st.pkeys ≠ [])
+    (hcomp : Spec.components enc st.markers vals st.pkeys = some cs) :
+    getRoutingKey enc st cache vals = .res (.key (some (Token.routingKey cs))) ∧
+    Murmur.murmur3H1 (Token.routingKey cs) = Murmur.Spec.cassandraH1 (Token.routingKey cs) := by
+  refine ⟨?_, C09_murmur _⟩
+  obtain ⟨ts, hts, _, _, _⟩ := compositeLoop_spec enc st.markers vals st.pkeys cs hcomp
+  have hm : st.markers.isEmpty = false := by
+    cases hp : st.pkeys with
+    | nil => exact absurd hp hpk
+    | cons i is =>
+      rw [hp] at hcomp
+      unfold Spec.components at hcomp
+      split at hcomp
+      · rename_i c _ hc _
+        obtain ⟨m, hmm, _⟩ := component_some hc
+        cases h : st.markers with
+        | nil => simp [h] at hmm
+        | cons _ _ => rfl
+      · simp at hcomp
+  have hp : st.pkeys.isEmpty = false := by
+    cases h : st.pkeys with
+    | nil => exact absurd h hpk
+    | cons _ _ => rfl
+  simp only [getRoutingKey, routingKeyInfo, hm, hp, hts, Bool.not_false, Bool.false_eq_true, if_false, if_true]
+  rw [createRoutingKey_spec enc st.markers vals st.pkeys ts cs "" "" hpk hts hcomp]
+
+/-- test vectors (names as byte strings; "ID" = 49 44, "id" = 69 64): `UPDATE t SET id = ? WHERE "ID" = ?` binds the
+    key column "ID" at marker 1; `… WHERE k = ? AND "K" = ?` with key ("K", k) resolves to markers (1, 0); a key column
+    that is only bound under another spelling is not bound; prefixes are different names; the first of two markers counts -/
+example : resolve [[0x49, 0x44]] [[0x69, 0x64], [0x49, 0x44]] = some [1] := by decide
+example : resolve [[0x4b], [0x6b]] [[0x6b], [0x4b]] = some [1, 0] := by decide
+example : resolve [[0x49, 0x44]] [[0x69, 0x64], [0x49, 0x64]] = (none : Option (List Nat)) := by decide
+example : resolve ["k1", "k"] ["k10", "k", "k1", "k"] = some [2, 1] := by decide
+example : getRoutingKey toyEnc ⟨[⟨"id", 4⟩, ⟨"ID", 4⟩], [], "ks", "t"⟩
+    [("KS", [("t", [("id", 0)])]), ("ks", [("T", [("id", 0)]), ("t", [("ID", 0)])])] [[7], [42]]
+    = .res (.key (some [0, 0, 0, 42])) := by decide
+
+/-- the specification tells the spellings apart: marker 0 (`id`) does not carry the key column `ID`; a resolver that
+    compares names case-insensitively (seeded change C09-7) answers `[0]` here -/
+example : ¬ Spec.Resolves ["id", "ID"] ["ID"] [0] := by simp [Spec.Resolves]
+example : Spec.Resolves ["id", "ID"] ["ID"] [1] := by
+  refine ⟨⟨rfl, ?_⟩, trivial⟩
+  intro j hj; have : j = 0 := by omega
+  subst this; simp
+
+end NameResolution
 
 /-! ## token order -/
 
